@@ -57,5 +57,15 @@ Definition table_matches_source (src : list (string * route)) : bool :=
   forallb (fun er => match lookup (fst er) format_table with Some k => route_fits (snd er) k | None => false end) src &&
   forallb (fun ek => match lookup (fst ek) src with Some _ => true | None => false end) format_table.
 
+(* keyword arguments that Trajectory.save forwards to the save_* methods.  [roundtrip] above has no option argument:
+   whether the cell is carried must not depend on any of them.  The list is pinned against the signatures of the save_*
+   methods (MD.Gen.CellFormats.saver_options_known), and the runs save/load with every listed option switched away from
+   its default. *)
+Definition cell_neutral_options : list string :=
+  ["force_overwrite"; "bfactors"; "ter"; "header"; "precision"; "mode"].
+
+Definition options_known (src : list (string * list string)) : bool :=
+  forallb (fun so => forallb (fun o => existsb (String.eqb o) cell_neutral_options) (snd so)) src.
+
 Definition kind_code (k : kind) : nat :=
   match k with Keeps => 0 | ZeroBox => 1 | RequiresCell => 2 | RectilinearOnly => 3 | NoCell => 4 end.
